@@ -24,6 +24,23 @@ def vanished_variable(body_text, residual):
     return bool(used - left)
 
 
+def spelling_leaks(helpers, body, residual):
+    """finding C16-F3 (a free variable is folded as the BYTES OF ITS OWN NAME) when the variable also survives
+    elsewhere in the residual, so `vanished_variable` does not see it.  Mechanism-following test: enter the same
+    session with every free variable P<n> respelled Q<n>; if the residual, with the names mapped back, is a
+    different text, some constant in it was computed from a variable's spelling."""
+    lines = [progen.text(h) for h in helpers] + [progen.text(body)]
+    if any(re.search(r"\bQ[0-9]+\b", l) for l in lines):
+        return False
+    ren = lines[:-1] + [re.sub(r"\bP([0-9]+)\b", r"Q\1", lines[-1])]
+    out = lib.run_impl("repl", [" ".join(l.encode().hex() for l in ren)], timeout=60)[0].split()
+    if len(out) < 2 or out[0] != "R":
+        return False
+    other = bytes.fromhex(out[1]).decode("utf8", "replace")
+    other = re.sub(r"(?<=[\s(])#(?=[\s)])", "35", other)
+    return re.sub(r"\bQ([0-9]+)\b", r"P\1", other) != residual
+
+
 def let_bound_in_if(tree):
     """does some `if` mention a name bound by an enclosing let / let* / assign form?  (C16-F2: such a name
     reaches the evaluator's compiled `if` fragment as its renamed identifier; depending on what surrounds it
@@ -109,6 +126,8 @@ def run(chk):
         # the one-byte atom 0x23 prints as a lone `#`, which the reader does not take back (a
         # print/read matter, C09/C15, not the evaluator's): spell it as the number it is
         residual = re.sub(r"(?<=[\s(])#(?=[\s)])", "35", residual)
+        # likewise `(q . ())` prints as `(q)`, which the compiler's quote form does not take (print/read, not evaluation)
+        residual = re.sub(r"\((q|1)\)", r"(\1 . ())", residual)
         ah = " ".join(gen.hexv(a) for a in args)
         comp_lines.append("text:O0 " + wrap(params, helpers, progen.text(body)).encode().hex() + " " + ah)
         comp_lines.append("text:O0 " + wrap(params, helpers, residual).encode().hex() + " " + ah)
@@ -144,7 +163,8 @@ def run(chk):
                     sig = "repl:free-variable-quoted-in-compiled-fragment"
                 elif re.search(r"(?:\(|\s)(?:1|q) \. [A-Za-z0-9_]+_\$_[0-9]+\)", residual):
                     sig = "repl:let-bound-name-quoted"
-                elif not closed and vanished_variable(progen.text(body), residual):
+                elif not closed and (vanished_variable(progen.text(body), residual)
+                                     or spelling_leaks(helpers, body, residual)):
                     sig = "repl:free-variable-folded-as-constant"
                 elif let_bound_in_if(("list", list(helpers) + [body], None)):
                     sig = "repl:let-bound-name-in-if"
